@@ -22,20 +22,25 @@ ENCODED = ["twisted.conch.telnet:Telnet.will", "twisted.conch.telnet:Telnet.wont
            "twisted.conch.telnet:Telnet.dont_no_false", "twisted.conch.telnet:Telnet.dont_no_true",
            "twisted.conch.telnet:Telnet.dont_yes_false", "twisted.conch.telnet:Telnet.dont_yes_true",
            "twisted.conch.telnet:Telnet.getOptionState"]
-BOUNDS = {"quick": {"nopt": 1, "req": 3, "hist": 7, "nopt2": 2, "req2": 2, "hist2": 4},
-          "thorough": {"nopt": 1, "req": 4, "hist": 10, "nopt2": 2, "req2": 3, "hist2": 7}}
+BOUNDS = {"quick": {"nopt": 1, "req": 3, "hist": 7, "nopt2": 2, "req2": 2, "hist2": 4,
+                    "rall": 0, "rreq": 2, "rhist": 6},
+          "thorough": {"nopt": 1, "req": 4, "hist": 10, "nopt2": 2, "req2": 3, "hist2": 7,
+                       "rall": 1, "rreq": 2, "rhist": 7}}
 B = {}
 BOUNDS_TEXT = ("two connected Telnet instances A, B; histories of length <= hist over {A/B . will/wont/do/dont(o), "
                "deliver next A->B message, deliver next B->A message}, o in the first nopt options, at most req "
                "requests that the API accepts, every one of the 16 (policy A, policy B) pairs; after the history "
                "all queues are drained; thorough tier adds harness history2 with nopt2 = 2 options, req2 requests, "
-               "length <= hist2, first accepted request by A on option 1 (symmetry)")
+               "length <= hist2, first accepted request by A on option 1 (symmetry); harness reentrant: one option, "
+               "<= rreq history requests of length <= rhist, accepted request number fu additionally issues the "
+               "opposite request on the same option from inside the success callback of its Deferred (quick: both "
+               "sides accept everything; thorough: all 16 policy pairs)")
 OUTSIDE = ["more than req accepted requests / more than nopt options / longer histories",
            "peers that are not twisted Telnet instances (arbitrary WILL/WONT/DO/DONT byte streams)",
            "policies whose enableLocal/enableRemote answer changes over time or that refuse an option the same "
            "side asks for (Telnet.will_no_true asserts on those)",
-           "connection loss during negotiation; subnegotiation; re-entrant requests issued from inside a "
-           "Deferred callback or policy hook",
+           "connection loss during negotiation; subnegotiation; more than one re-entrant request per history, "
+           "re-entrant requests on another option or from a policy hook or an errback",
            "messages split at arbitrary byte positions (each delivery is one whole 3 byte IAC command; byte "
            "level splitting of the parser is C38's subject)"]
 ASSUMPTIONS = ["history2 (two options, thorough tier) fixes the first step to A.will(option 1) or A.do(option 1): "
@@ -59,6 +64,7 @@ EXPLANATION = ("the solver chooses the interleaving of requests and single-messa
 
 KINDS = ("will", "wont", "do", "dont")
 _CMD = {"will": WILL, "wont": WONT, "do": DO, "dont": DONT}
+_OPPOSITE = {"will": "wont", "wont": "will", "do": "dont", "dont": "do"}
 
 
 class _Queue:
@@ -115,6 +121,9 @@ class _World:
         self.fired = []      # per accepted request: list of outcomes
         self.meta = []       # per accepted request: (side, kind, option)
         self.nreq = 0
+        self.nhist = 0          # requests issued by the history itself (not follow-ups)
+        self.followed = False   # the one re-entrant follow-up has been issued
+        self.nested = None      # its verdict
 
     def _persp(self, side, kind, opt):
         s = self.sides[side].getOptionState(opt)
@@ -129,8 +138,10 @@ class _World:
                 dict(self.sides[0].appLocal), dict(self.sides[0].appRemote),
                 dict(self.sides[1].appLocal), dict(self.sides[1].appRemote))
 
-    def request(self, side, kind, opt):
-        """returns 'cont' (accepted), 'stop' (refused, verified harmless) or 'bad'"""
+    def request(self, side, kind, opt, follow=False):
+        """returns 'cont' (accepted), 'stop' (refused, verified harmless) or 'bad'.  follow: when
+        this request's Deferred fires with success, issue the opposite request on the same option
+        from inside that callback (re-entrantly, while the protocol is still in its handler)"""
         t = self.sides[side]
         if kind == "will" and not t.acceptLocal:
             return "stop"      # outside the policy assumption
@@ -147,6 +158,9 @@ class _World:
         def ok(v, out=out):
             out.append(("ok", v, self._persp(side, kind, opt).state,
                         self._persp(side, kind, opt).negotiating))
+            if follow and not self.followed:
+                self.followed = True
+                self.nested = self.request(side, _OPPOSITE[kind], opt)
 
         def err(f, out=out):
             out.append(("err", f.type, self._persp(side, kind, opt).state,
@@ -197,9 +211,9 @@ class _World:
         self.sides[1 - src].dataReceived(msg)
         return "cont"
 
-    def drain(self, budget):
+    def drain(self):
         while True:
-            if self.total_msgs() > budget:
+            if self.total_msgs() > 2 * self.nreq or self.nested == "bad":
                 return False
             if self.sides[0].transport.buf:
                 r = self.deliver(0)
@@ -264,7 +278,7 @@ def _conc(x, n):
     raise AssertionError("out of range")
 
 
-def _run(pa, pb, ops, nopt, maxreq):
+def _run(pa, pb, ops, nopt, maxreq, fu=-1):
     # ops has fixed length; any value outside the menu ends the history early (so every shorter
     # history is covered and the solver decides the elements one by one, in order)
     w = _World(_conc(pa, 4), _conc(pb, 4), nopt)
@@ -274,21 +288,24 @@ def _run(pa, pb, ops, nopt, maxreq):
             if op == code:
                 if code >= nopt * 8:
                     r = w.deliver(code - nopt * 8)
-                elif w.nreq >= maxreq:
+                elif w.nhist >= maxreq:
                     r = "stop"
                 else:
-                    r = w.request((code >> 2) & 1, KINDS[code & 3], w.opts[code >> 3])
+                    follow = (not w.followed) and fu == w.nhist
+                    r = w.request((code >> 2) & 1, KINDS[code & 3], w.opts[code >> 3], follow)
+                    if r == "cont":
+                        w.nhist += 1
                 break
         if r == "end":
             break
         if r == "stop":
             return True
-        if r != "cont":
+        if r != "cont" or w.nested == "bad":
             return False
         # no negotiation loop: every accepted request costs at most itself and one answer
         if w.total_msgs() > 2 * w.nreq:
             return False
-    if not w.drain(2 * w.nreq):
+    if not w.drain():
         return False
     cover()
     return w.final_ok()
@@ -310,6 +327,17 @@ def history2(pa: int, pb: int, ops: List[int]) -> bool:
     post: _
     """
     return _run(pa, pb, ops, B["nopt2"], B["req2"])
+
+
+def reentrant(pa: int, pb: int, fu: int, ops: List[int]) -> bool:
+    """
+    pre: 0 <= pa <= 3 and 0 <= pb <= 3 and (B['rall'] == 1 or (pa == 3 and pb == 3))
+    pre: len(ops) == B['rhist'] and 0 <= fu < B['rreq']
+    post: _
+    """
+    # like history, but accepted request number fu carries a callback that issues the opposite
+    # request (will->wont, wont->will, do->dont, dont->do) from inside the firing of its Deferred
+    return _run(pa, pb, ops, 1, B["rreq"], fu=_conc(fu, B["rreq"]))
 
 
 def _shards(tier):
@@ -340,5 +368,20 @@ def _shards2(tier):
     return out
 
 
+def _shards_r(tier):
+    b = BOUNDS[tier]
+    pairs = [(a, c) for a in range(4) for c in range(4)] if b["rall"] else [(3, 3)]
+    out = []
+    for a, c in pairs:
+        for f in range(b["rreq"]):
+            base = ("pa == %d" % a, "pb == %d" % c, "fu == %d" % f)
+            if a == 3 and c == 3:
+                out += [base + ("ops[0] == %d" % k,) for k in (0, 2, 4, 6)]
+            else:
+                out.append(base + ("ops[0] in (0, 2, 4, 6)",))
+    return out
+
+
 HARNESSES = [H(history, shards=_shards, timeout={"quick": 90, "thorough": 1500}),
-             H(history2, shards=_shards2, timeout={"quick": 90, "thorough": 1500}, tiers=("thorough",))]
+             H(history2, shards=_shards2, timeout={"quick": 90, "thorough": 1500}, tiers=("thorough",)),
+             H(reentrant, shards=_shards_r, timeout={"quick": 90, "thorough": 1500})]
